@@ -9,7 +9,7 @@ out = ["# Seeded property-breaking changes", "",
        "Each directory holds `patch.diff` (applies to /repo with `git apply`), the demonstration test (`demo_test.go.txt`), and `meta.json`.",
        "Every change compiles, keeps the repository's full test suite green and was confirmed with `scripts/seedverify.sh` in a scratch worktree",
        "(demo fails with the change, passes without). `caught by` names the check whose quick tier reports a VIOLATION with the change applied.",
-       "Suffixes A/B: first round (one fresh sub-agent per property), C/D: second round (another fresh sub-agent per property, asked for less obvious mechanisms:",
+       "Suffixes A/B: first round, E/F: third round (asked for option interactions, rare grammar features, template-level changes, repeated use, larger sizes) (one fresh sub-agent per property), C/D: second round (another fresh sub-agent per property, asked for less obvious mechanisms:",
        "state carried between uses, one of two cooperating sites, unused option combinations, size boundaries); `notes.md` is the seeder's own description.", "",
        "| seed | property | caught by | needs, in order to manifest |", "|---|---|---|---|"]
 for r in rows:
